@@ -19,7 +19,9 @@ CLAIM = dict(
           "expressible in the model: the race detector run is supporting evidence, not proof; the types a library exports (the harness "
           "registers @HTTP with pkg/common's HTTP请求 / HTTP响应 the way stdlib/http does, which does not compile in this tree) are not in "
           "the model: for them the check compares a probe's outcome after generated polluters (in-place and assigning updates of every "
-          "property of objects built from those types) with its outcome alone, through shared and separate interpreter objects."),
+          "property of objects built from those types, constructors defined for them) with its outcome alone, through shared and "
+          "separate interpreter objects; the same comparison is made for file-based executions whose module files are rewritten between "
+          "runs and for input-variable texts (evaluated before every execution) that take the predefined values."),
     technique="Coq proof (induction over program sequences; invariant over all handler interleavings) + in-process polluter/interleaving correspondence",
     design="5/C16")
 
